@@ -1597,6 +1597,22 @@ class Signature:
                     if isinstance(new_tv_maps, CanAssignError):
                         return new_tv_maps
                     tv_maps += new_tv_maps
+                    their_kwonly = other.parameters.get(my_param.name)
+                    if (
+                        their_kwonly is not None
+                        and their_kwonly.kind is ParameterKind.KEYWORD_ONLY
+                    ):
+                        # Passed by keyword, the argument goes to this parameter
+                        # of theirs instead of their **kwargs.
+                        tv_map = their_kwonly.get_annotation().can_assign(
+                            my_annotation, ctx
+                        )
+                        if isinstance(tv_map, CanAssignError):
+                            return CanAssignError(
+                                f"type of parameter {my_param.name!r} is incompatible",
+                                [tv_map],
+                            )
+                        tv_maps.append(tv_map)
                 else:
                     return CanAssignError(
                         f"parameter {my_param.name!r} is not accepted"
